@@ -1,3 +1,4 @@
+import TinysetModel.Proofs.ProgramRefine
 import TinysetModel.Proofs.Fns
 import TinysetModel.Proofs.Plain
 import TinysetModel.Proofs.Consts
@@ -219,6 +220,21 @@ theorem helpers_are_the_source_u32 :
     (∀ x bits, 0 < bits → Gen.split_32 x bits = (x / bits, x % bits)) ∧
     (∀ k idx n, n < 2 ^ 32 → Gen.p_poverty_32 k idx n = RH.pov k idx n) :=
   ⟨log_2_32_eq, compute_array_bits_32_eq, split_32_eq, p_poverty_32_eq⟩
+
+/-! ### programs over several sets: contents and allocator calls in one statement -/
+
+/-- **SetU32, any number of sets, any program** of insert / remove / extend / collect / clone / with_capacity_of /
+hinted constructors / drop / `&a | &b` / `&a - &b` / `a | &b` / `a - &b` with `u32` arguments, every generator
+outcome: whenever the run returns, every set is well formed and holds exactly the members the same program over
+ideal mathematical sets gives it (`specRunP`), and the allocator calls made on the way, followed by the drop of
+every set, are all legal and leave nothing live -/
+theorem every_program_u32 {D : Type} (g : Rng D) (fuel n : Nat) (ops : List POp) (hr : ∀ op ∈ ops, op.InRange 32)
+    {s' : Slots} {d d' : D} {evs : List Ev}
+    (h : prun cfg32 false g fuel (List.replicate n .empty) ops d = .ok ((s', evs), d')) :
+    (∀ i, i < n → WF cfg32 (s'.get i) ∧ ∀ x, x ∈ elems cfg32 (s'.get i) ↔ specRunP n (fun _ => none') ops i x) ∧
+    runEv [] (evs ++ dropAll cfg32 s') = some [] :=
+  program_correct_and_balanced cfg32_ok false g fuel n ops hr h
+
 
 end C02
 
